@@ -40,10 +40,13 @@ Definition result_of_tree (t : tree) : outcome lres :=
   match t with
   | P _ _ _ => Panic                                                          (* expect("result sequence") *)
   | C _ _ (P Universal 10 code :: P _ _ m :: P _ _ d :: rest) =>
+      (* repair F28: a result code of more than 8 octets, or one that does not fit 32 bits, is malformed - it is not truncated (as found:
+         [rc_as_found] below; a refusal with code 2^32 read as success) *)
+      if (Nat.leb (length code) 8) && (parse_uint code <? 2^32) then
       if Utf8.valid m then if Utf8.valid d then
-        comps rest {| rc := parse_uint code mod 2^32; matched := m; text := d; refs := [];
+        comps rest {| rc := parse_uint code; matched := m; text := d; refs := [];
                       exop_name := None; exop_val := None; sasl := None |}
-      else Panic else Panic
+      else Panic else Panic else Panic
   | _ => Panic end.
 
 (* ---- what the server encoded (RFC 4511 LDAPResult + the response-specific trailers) ---- *)
@@ -54,8 +57,10 @@ Definition spec_response (app_id : N) (code : bytes) (r : lres) : tree :=
      ++ (match refs r with [] => [] | l => [C Context 3 (map oct l)] end)
      ++ opt1 (sasl r) 7 ++ opt1 (exop_name r) 10 ++ opt1 (exop_val r) 11).
 
+Definition rc_as_found (code : bytes) : N := parse_uint code mod 2^32.
+Lemma c03_refuted_F28 : rc_as_found [x01; x00; x00; x00; x00] = 0. Proof. reflexivity. Qed.
 Definition wf_res (code : bytes) (r : lres) : Prop :=
-  parse_uint code = rc r /\ rc r < 2^32 /\ Utf8.valid (matched r) = true /\ Utf8.valid (text r) = true /\
+  (length code <= 8)%nat /\ parse_uint code = rc r /\ rc r < 2^32 /\ Utf8.valid (matched r) = true /\ Utf8.valid (text r) = true /\
   Forall (fun u => Utf8.valid u = true) (refs r) /\ (match exop_name r with Some n => Utf8.valid n = true | None => True end).
 
 Lemma parse_refs_oct l : Forall (fun u => Utf8.valid u = true) l -> parse_refs_l (map oct l) = Ok l.
@@ -78,9 +83,9 @@ Proof. reflexivity. Qed.
 
 Theorem c03_result_of_spec app_id code r : wf_res code r -> result_of_tree (spec_response app_id code r) = Ok r.
 Proof.
-  intros (Hc & Hlt & Hm & Ht & Hr & Hn). destruct r as [c m t rs en ev sa]. cbn [rc matched text refs exop_name exop_val sasl] in *.
+  intros (Hlen & Hc & Hlt & Hm & Ht & Hr & Hn). destruct r as [c m t rs en ev sa]. cbn [rc matched text refs exop_name exop_val sasl] in *.
   unfold result_of_tree, spec_response. cbn [app matched text refs sasl exop_name exop_val]. unfold oct at 1 2. cbn beta iota.
-  rewrite Hm, Ht, Hc, N.mod_small by exact Hlt.
+  rewrite (proj2 (Nat.leb_le _ _) Hlen), Hc, (proj2 (N.ltb_lt _ _) Hlt). cbn [andb]. rewrite Hm, Ht.
   destruct rs as [|u us]; cbn beta iota; cbn [app].
   2: rewrite comps_refs by exact Hr; unfold set_refs.
   all: cbn [rc matched text refs exop_name exop_val sasl app].
@@ -90,14 +95,14 @@ Proof.
 Qed.
 
 (* together with C06/C07: whatever definite encoding the server chose for the whole message *)
-Theorem c03_from_the_wire app_id code r ib env bs rest :
+Theorem c03_from_the_wire app_id code r ib env bs rest : id_ok ib = true ->
   wf_res code r -> env = C Universal 16 [P Universal 2 ib; spec_response app_id code r] -> BerEnc env bs ->
   exists mid, decode_inner (bs ++ rest) = DFrame mid (spec_response app_id code r) [] rest /\
               result_of_tree (spec_response app_id code r) = Ok r.
 Proof.
-  intros Hw -> He. eexists. split; [|now apply c03_result_of_spec].
+  intros Hid Hw -> He. eexists. split; [|now apply c03_result_of_spec].
   assert (Hop : op_ok (spec_response app_id code r)) by reflexivity.
-  exact (c06_exact_consumption _ _ bs rest (WM_plain ib _ Hop) He).
+  exact (c06_exact_consumption _ _ bs rest (WM_plain ib _ Hop Hid) He).
 Qed.
 
 (* ---- helpers: success(), non_error(), CompareResult::equal()/non_error() ---- *)
@@ -117,15 +122,15 @@ Print Assumptions c03_from_the_wire.
 
 (* ... and with response controls attached: the caller gets the result and, for each control the server attached, its OID, criticality
    and value bytes, in order — whatever definite encoding the server chose *)
-Theorem c03_from_the_wire_with_controls app_id code r ib cts cs env bs rest :
+Theorem c03_from_the_wire_with_controls app_id code r ib cts cs env bs rest : id_ok ib = true ->
   wf_res code r -> Forall2 WfCtrl cts cs ->
   env = C Universal 16 [P Universal 2 ib; spec_response app_id code r; C Context 0 cts] -> BerEnc env bs ->
   exists mid, decode_inner (bs ++ rest) = DFrame mid (spec_response app_id code r) cs rest /\
               result_of_tree (spec_response app_id code r) = Ok r.
 Proof.
-  intros Hw Hc -> He. eexists. split; [|now apply c03_result_of_spec].
+  intros Hid Hw Hc -> He. eexists. split; [|now apply c03_result_of_spec].
   assert (Hop : op_ok (spec_response app_id code r)) by reflexivity.
-  exact (c06_exact_consumption _ _ bs rest (WM_ctrls ib _ cts cs Hop Hc) He).
+  exact (c06_exact_consumption _ _ bs rest (WM_ctrls ib _ cts cs Hop Hid Hc) He).
 Qed.
 Print Assumptions c03_from_the_wire_with_controls.
 
